@@ -197,7 +197,8 @@ CLAIMS = {
              "the default namespace applies to unprefixed elements and never to attributes, and a name test depends ONLY on node kind, "
              "expanded name and the URI the caller bound to the prefix; and for the whole evaluator (eval_ren, by mutual induction): every "
              "expression without name()/local-name() and without a name test on the namespace axis has the same value or error on a document "
-             "whose prefixes were renamed consistently (injective renaming keeping xml). "
+             "whose prefixes were renamed consistently (injective renaming keeping xml), and EVERY expression has the same value when its own "
+             "prefixes are renamed together with the caller's bindings (eval_rename_expression). "
              "Tie/monitor: random declaration layouts x a battery of name tests and namespace-uri/local-name/name queries vs the model, "
              "and the same queries after renaming the document's prefixes, and after renaming the expression's prefixes with the bindings.",
         note="Trusted: Lean kernel, model Tree.lean (scope computation), generators. Known finding namespace-nodes (namespace axis).",
